@@ -294,6 +294,21 @@ impl Signature {
 
                 let len = u32::try_from(subpacket.write_len())?;
 
+                // the unhashed area of a v2-v4 signature is announced in two octets
+                if config.version() != SignatureVersion::V6 {
+                    let area = config
+                        .unhashed_subpackets
+                        .iter()
+                        .map(|sp| sp.write_len())
+                        .sum::<usize>()
+                        + subpacket.write_len();
+                    ensure!(
+                        area <= usize::from(u16::MAX),
+                        "unhashed subpacket area would grow to {} octets",
+                        area
+                    );
+                }
+
                 config.unhashed_subpackets.insert(index, subpacket);
                 *packetlen += len;
             } else {
